@@ -2,7 +2,7 @@
 
 from typing import List, Mapping, Optional, Sequence, Tuple, TypeVar, Union
 
-from .._utils import DefaultOrderedDict, OrderedDict, deduplicate, find_one
+from .._utils import DefaultOrderedDict, OrderedDict, find_one
 from ..exc import UnknownEnumValue, UnknownType, ValidationError
 from ..lang import ast as _ast
 from ..lang.visitor import DispatchingVisitor
@@ -190,11 +190,16 @@ class VariablesCollector(ValidationVisitor):
             ).append((node, input_type, input_value_def))
 
     def _flatten_fragments(self):
-        for parent, children in self._fragment_fragments.items():
-            for child in deduplicate(children):
-                for op in self._op_fragments.keys():
-                    if parent in self._op_fragments[op]:
-                        self._op_fragments[op].append(child)
+        # Transitive closure: every fragment reachable from an operation
+        # through nested spreads, whatever the order of the definitions.
+        for spreads in self._op_fragments.values():
+            index = 0
+            while index < len(spreads):
+                children = self._fragment_fragments.get(spreads[index], ())
+                for child in children:
+                    if child not in spreads:
+                        spreads.append(child)
+                index += 1
 
     def leave_document(self, _):
         self._flatten_fragments()
